@@ -69,6 +69,24 @@ REBOUND = {
 }
 
 
+# the builtin is read in a class body that also binds the same name: still the builtin that runs
+CLASS_REBOUND = [
+    'class TriggerClass:\n    {N} = staticmethod({N})\n{P}',
+    'class TriggerClass:\n    saved_value = {N}\n    def {N}(self):\n        return 1\n{P}',
+    'class TriggerClass:\n    saved_value = {N}\n    {N} = None\n    def method_one(self, long_parameter):\n        local_value = long_parameter\n        return local_value, local_value\n{P}',
+    'def outer_function():\n    class TriggerClass:\n        {N} = [{N}]\n    local_value = TriggerClass\n    return local_value, local_value\n{P}',
+]
+
+
+def class_rebound_programs():
+    out = []
+    for i, tmpl in enumerate(CLASS_REBOUND):
+        for name in ('eval', 'exec', 'locals', 'globals', 'vars'):
+            base = 'def other_function(first_parameter):\n    second_value = first_parameter\n    return second_value, second_value\n'
+            out.append(('class-rebound:%d:%s' % (i, name), tmpl.format(N=name, P=base), base))
+    return out
+
+
 def rebound_programs():
     out = []
     for kind, tmpl in sorted(REBOUND.items()):
@@ -150,8 +168,12 @@ def control_group(ctx):
 def run(ctx):
     progs = tainted_programs(ctx, ctx.scale(350, 5000))
     osets = rc.RENAME_OPTION_SETS if ctx.tier == 'thorough' else [rc.RENAME_OPTION_SETS[i] for i in (3, 4, 1)]
+    # naming names to preserve must not unfreeze anything
+    osets = osets + [('locals+preserve', dict(rename_locals=True, preserve_locals=['first_param', 'unrelated_name'])),
+                     ('all+preserve', dict(rename_locals=True, rename_globals=True, hoist_literals=True, preserve_globals=['trigger_function', 'unrelated_name'], preserve_locals='first_param'))]
     run_programs(ctx, progs, osets, 'generated')
     run_programs(ctx, [(i, p, b) for i, p, b, _k in rebound_programs()], osets, 'rebound-trigger-names')
+    run_programs(ctx, class_rebound_programs(), osets, 'class-rebound-trigger-names')
     control_group(ctx)
     for k in ctx.known:
         if k.get('replay_source'):
